@@ -2,7 +2,8 @@ package main
 
 // C09: for each sampled well-formed message M (templates announced beforehand by the same exporter,
 // M itself only re-announces identical definitions, so decoding M or any part of it leaves the cache
-// content unchanged): the full message, M with an undecodable set inserted at every set boundary,
+// content unchanged): the full message, M with an undecodable set (unknown template id, reserved set id, data for a
+// template that names an element missing from the model, data for a template without fields) inserted at every set boundary,
 // and M cut at EVERY octet offset 0..len(M).
 // Oracle (on the real decoder's own output): records(inserted) == records(full);
 // records(truncated) is a prefix of records(full).
@@ -39,7 +40,11 @@ func (p *flowProto) genTrunc(r *rand.Rand, n int, w *bufio.Writer) {
 			ann = append(ann, cat(be16(sid), be16(4+len(p.encTplRec(t))), p.encTplRec(t))...)
 		}
 		badT := tpl{id: 400, fields: []fspec{{id: 8, ln: 4}, {id: 9000 + r.Intn(5), ln: 4}, {id: 12, ln: 4}}}
-		ann = append(ann, cat(be16(p.tplSet), be16(4+len(p.encTplRec(badT))), p.encTplRec(badT))...)
+		// … and, in the same set and in front of it (a 4-octet record at the very end of a set is taken for padding), a
+		// template record with field count 0 — the template withdrawal format of RFC 7011 section 8.1, which both decoders
+		// install as a template without fields: a data set for it cannot be decoded
+		zeroT := tpl{id: 401}
+		ann = append(ann, cat(be16(p.tplSet), be16(4+len(p.encTplRec(zeroT))+len(p.encTplRec(badT))), p.encTplRec(zeroT), p.encTplRec(badT))...)
 		fmt.Fprintf(w, "%s %s %s\tannounce\n", p.name, hx(addr), hx(ann))
 		emitted++
 		// a neighbouring exporter (address differing in the low bits of its last octet) announces templates under ids that
@@ -78,7 +83,7 @@ func (p *flowProto) genTrunc(r *rand.Rand, n int, w *bufio.Writer) {
 					own = true
 				}
 			}
-			if !own && id != 400 {
+			if !own && id != 400 && id != 401 {
 				foreign = append(foreign, id)
 			}
 		}
@@ -118,7 +123,9 @@ func (p *flowProto) genTrunc(r *rand.Rand, n int, w *bufio.Writer) {
 		for pos := 0; pos <= len(sets); pos++ {
 			var u []byte
 			body := rndBytes(r, r.Intn(30))
-			switch r.Intn(3) {
+			switch r.Intn(4) {
+			case 3: // data for the template without fields (any body): no record can be decoded from it
+				u = cat(be16(401), be16(4+len(body)), body)
 			case 0: // template id this exporter never announced
 				id := 9000 + r.Intn(1000)
 				if len(foreign) > 0 && r.Intn(2) == 0 {
@@ -126,7 +133,13 @@ func (p *flowProto) genTrunc(r *rand.Rand, n int, w *bufio.Writer) {
 				}
 				u = cat(be16(id), be16(4+len(body)), body)
 			case 1: // reserved set id
-				u = cat(be16(p.reserved[r.Intn(len(p.reserved))]), be16(4+len(body)), body)
+				id := p.reserved[r.Intn(len(p.reserved))]
+				if p.isIPFIX && r.Intn(6) == 0 {
+					// IPFIX set id 1 ("not used", RFC 7011 section 3.3.2) is decoded as data with the zero template: the same
+					// path as a template without fields, skipped by its length since the F30 repair (id 0 stays fatal)
+					id = 1
+				}
+				u = cat(be16(id), be16(4+len(body)), body)
 			default: // data for the template that names an element missing from the model
 				body = rndBytes(r, 12*(1+r.Intn(3)))
 				u = cat(be16(400), be16(4+len(body)), body)
